@@ -10,7 +10,7 @@ use super::sendbody::send_body_flow;
 use crate::driver::AnyFlow;
 use crate::engine::{explore, guarded, pattern, validate_traces, Limits, Report, Sys, Tier, Violation};
 
-pub const RULE: &str = "E1: for every N in 0..=12 (POST) and N in 0..=3 (GET with send-body-despite-method; also on a flow obtained by following a redirect whose original request declared a different length, on a POST carrying its own Host header, and next to Transfer-Encoding values that do not name the chunked coding: 'chunk', '', 'chunked-x', 'gzip') the complete graph of the real sized writer: from every reachable state every write(i,b) with i,b in 0..=N+2, every consume_direct_write(k), k in 0..=N+2, readiness vs proceed-on-a-clone in every state. E2: every N in 0..=70000 (fresh flow with Content-Length: N) x boundary steps i,b,k in {0,1,N-1,N,N+1} from the initial state and from the states left in {N-1,1,0} reached by a direct-write report; large N in {2^16+-1,2^31+-1,2^32+-1,2^63,u64::MAX-1,u64::MAX}. distinct = distinct (N class, op, accepted/refused, left' class) cells";
+pub const RULE: &str = "E1: for every N in 0..=12 (POST) and N in 0..=3 (GET with send-body-despite-method; also on a flow obtained by following a redirect whose original request declared a different length, on a POST carrying its own Host header, next to Transfer-Encoding values that do not name the chunked coding: 'chunk', '', 'chunked-x', 'gzip', and for a caller that calls headers_map() before the first head write) the complete graph of the real sized writer: from every reachable state every write(i,b) with i,b in 0..=N+2, every consume_direct_write(k), k in 0..=N+2, readiness vs proceed-on-a-clone in every state. E2: every N in 0..=70000 (fresh flow with Content-Length: N) x boundary steps i,b,k in {0,1,N-1,N,N+1} from the initial state and from the states left in {N-1,1,0} reached by a direct-write report; large N in {2^16+-1,2^31+-1,2^32+-1,2^63,u64::MAX-1,u64::MAX}. distinct = distinct (N class, op, accepted/refused, left' class) cells";
 
 #[derive(Clone, Debug, PartialEq)]
 pub enum Op {
@@ -193,6 +193,7 @@ fn model_len(n: u64, despite: bool) -> u64 {
 fn variant_label(n: u64, despite: bool) -> &'static str {
     match (despite, n) {
         (false, _) => "",
+        (true, 7000..) => " (POST whose caller called headers_map() before the first head write; N = n % 1000)",
         (true, 3000..) => " (POST with a non-chunked Transfer-Encoding value next to the Content-Length; N = n % 1000)",
         (true, 2000..) => " (POST with its own Host header; N = n - 2000)",
         (true, 1000..) => " (redirected flow, GET + send_body_despite_method, own Content-Length; N = n - 1000)",
@@ -201,6 +202,10 @@ fn variant_label(n: u64, despite: bool) -> &'static str {
 }
 
 fn mk_flow(n: u64, despite: bool) -> Flow<(), SendBody> {
+    if despite && n >= 7000 {
+        // encoding: despite + n >= 7000: POST with Content-Length n % 1000, the effective headers queried before the first write
+        return super::sendbody::send_body_flow_cfg_query_first(&crate::driver::ReqCfg::new("POST", "1.1", "http://a.test/p").orig("content-length", &(n % 1000).to_string()));
+    }
     if despite && n >= 3000 {
         // encoding: despite + n >= 3000: POST with Content-Length n % 1000 next to a Transfer-Encoding header
         // whose value is not the chunked coding (a prefix of the word, empty, a longer token, another coding)
@@ -397,6 +402,8 @@ pub fn run(tier: Tier) -> Report {
     graph_jobs.extend([2000u64, 2003, 2006].into_iter().map(|n| (n, true)));
     // ... and next to a Transfer-Encoding header that does not name the chunked coding
     graph_jobs.extend([3002u64, 4002, 5002, 6002, 3000].into_iter().map(|n| (n, true)));
+    // ... and by a caller that queried the effective headers before the first head write
+    graph_jobs.extend([7000u64, 7003].into_iter().map(|n| (n, true)));
     let graphs: Vec<Report> = graph_jobs
         .into_par_iter()
         .map(|(n, despite)| {
